@@ -45,6 +45,27 @@ def _c34_classes(i, o):
     return cls
 
 
+def _c35_classes(i, o):
+    price, fh, pct, hs, da_price, da_pct = i
+    cls = []
+    cls.append('price=%s' % ('0' if price == 0 else '<2^47' if price < 2 ** 47 else '<2^53' if price < 2 ** 53 else '>=2^53'))
+    cls.append('pct=%s' % ('<25' if pct < 25 else '25' if pct == 25 else '26-300' if pct <= 300 else 'huge'))
+    if isinstance(o, list):
+        for h, e in zip(hs, o):
+            b = max(0, h - fh)
+            cls.append('blocks=%s' % ('0' if b == 0 else '<25' if b < 25 else '25' if b == 25 else '26-300' if b <= 300 else '>300'))
+            if isinstance(e, list) and len(e) == 5:
+                if e[0] == -777 or e[2] == -777:
+                    cls.append('panic')
+                elif e[0] == 2 ** 64 - 1:
+                    cls.append('saturated')
+                if b <= 300 and e[0] >= 0 and 2 ** 47 * 100 ** b <= price * (100 + pct) ** b:
+                    cls.append('known-class-horizon')
+                    if e[0] * 100 ** b < price * (100 + pct) ** b:
+                        cls.append('estimate<real-compounding')
+    return cls
+
+
 PROPS = {
     'C34': dict(
         id='C34', cluster='Gas', crate='h-gas', tag=34,
@@ -76,9 +97,36 @@ PROPS = {
     'C35': dict(
         id='C35', cluster='Gas', crate='h-gas', tag=35,
         n={'quick': 1500, 'thorough': 30000},
-        theorems=[],
+        theorems=['table_lookup_in_bounds', 'estimate_total', 'worst_case_estimate_total',
+                  'round_to_nearest_even_monotone', 'estimate_monotone_in_horizon_table',
+                  'estimate_monotone_in_horizon_libm_partial', 'estimate_bounds_compounded_refuted',
+                  'estimate_bounds_compounded_partial', 'estimates_checker_sound',
+                  'float_model_agrees_with_flocq'],
+        classify=_c35_classes,
         translators=[['python3', 'translators/exptable2coq.py']],
         profiles=['dev', 'release'],
         panic_is_failure=True,
+        trusted=['translators/exptable2coq.py (syntactic: table literals -> binary64 bit patterns via Python struct, '
+                 'dimensions, guard operators, rounding constants)',
+                 'libm exp/ln are not modelled: the multiplier of the non-table branch is taken from the '
+                 'implementation run (same expression evaluated by the harness binary) and only its consequences are checked'],
+        rule='exhaustive over the table region and its rim: every percentage 0..=27 x every horizon 0..=27 (all 28 horizons '
+             'of one (price, percentage) in one case, so monotonicity is checked across the table/libm seam) for boundary '
+             'prices {0,1,2,3,99..101,1e9,2^50,2^53-1..2^53+1,1e16,cutoff,cutoff+1,1e17,2^62,2^63+1025,u64::MAX/175,'
+             'u64::MAX-1,u64::MAX} (quick: every second price), the DA component with the mirrored percentage; plus random '
+             'cases: prices of every magnitude, percentages 0..27 / up to 300 / 65535, 65536, 2^32, 2^53, u64::MAX, 1..8 '
+             'horizons per case below / at / above the best height, around 25, up to 1e5, u32::MAX. Every call is guarded '
+             'separately (a panic is the observation -777). Pcheck = no panic, estimates non-decreasing in the horizon '
+             '(exec, DA and worst_case), and estimate >= the price compounded block by block with integer rounding for '
+             'horizons <= 300. non-trivial = distinct input with a non-panic observation',
+        assumptions=['u64 price, u32 heights, u64 percentage (u16 for worst_case)',
+                     'the compounded-price bound is evaluated by Pcheck for horizons <= 300 blocks only (compounding is '
+                     'iterated block by block)',
+                     'bound theorem is _partial: table branch and price*(1+pct/100)^blocks < 2^47; the complement is the '
+                     'known finding K-C35-rounding-shortfall (witness theorem estimate_bounds_compounded_refuted)',
+                     'monotonicity in the libm branch and across the table/libm seam is relative to the multipliers libm '
+                     'returned (checked on the observed results, proved only relative to ordered multipliers)',
+                     'binary64 is modelled exactly by integers in units of 2^-1074 with round-to-nearest-even; the model is '
+                     'cross-checked against Flocq binary64 by vm_compute (float_model_agrees_with_flocq), not proved equal'],
         level='proof (partial)'),
 }
